@@ -293,7 +293,7 @@ func l3Again(f []string) vlib.Res {
 	if v != "" {
 		return vlib.Res{Impl: replyBrief(r), Oracle: v, Tags: tags}
 	}
-	if prevOver && !c.legitFail && c.topo.Answerable && r.Msg.Rcode == dns.RcodeServerFailure && r.packets() == 0 {
+	if prevOver && !c.legitFail && c.topo.Answerable && !c.topo.DeadAddrs && r.Msg.Rcode == dns.RcodeServerFailure && r.packets() == 0 {
 		// the name resolves for a resolver that is allowed to ask (at least one healthy authority per
 		// zone); the previous tree ran out of budget before it could, so whatever failure is served here
 		// without a single upstream packet — per-question or zone-wide — was published by the budget
